@@ -19,8 +19,9 @@
       digits in either case; the value must lie in −32768 … 65535 and denotes itself modulo 2^16,
       DESIGN.md I1);
     * `Layout.names` — the name of every label (`validLabel`, DESIGN.md I13);
-    * `Layout.trail` — what follows the last token (white space, comments; the last comment need
-      not be closed by a line feed).
+    * `Layout.trail` — what follows the last token: white space and comments (the last comment need
+      not be closed by a line feed), optionally ended by `.end` (any letter case) followed by
+      arbitrary text, which the assembler ignores.
 
   `Layout.ok flag L P` is the decidable well-formedness predicate: separators are separators,
   literal spellings denote their words, label names are valid and pairwise distinct, and the
@@ -181,9 +182,28 @@ def leadOk (g : List Char) : Bool := gapAux false false g
 def sepOk (g : List Char) : Bool :=
   (match g with | c :: _ => isSepChar c | [] => false) && gapAux false false g
 
-/-- after the last token: nothing, or as between tokens but the last comment may be open -/
+/-- the text begins with `.end` in any mixture of letter cases, not followed by an identifier
+character: everything from here on is ignored -/
+def endAt : List Char → Bool
+  | '.' :: e :: n :: d :: rest =>
+    (e == 'e' || e == 'E') && (n == 'n' || n == 'N') && (d == 'd' || d == 'D') &&
+    (match rest with | [] => true | c :: _ => !isIdChar c)
+  | _ => false
+
+/-- White space and comments up to the end of the text (the last comment may be open), or up to a
+`.end` directive, after which anything may stand. -/
+def trailAux : Bool → List Char → Bool
+  | _, [] => true
+  | true, c :: cs => if c == '\n' then trailAux false cs else trailAux true cs
+  | false, c :: cs =>
+    if c == ';' then trailAux true cs
+    else if endAt (c :: cs) then true
+    else isSepChar c && trailAux false cs
+
+/-- after the last token: nothing, or white space and comments beginning with a white-space
+character, ended by the end of the text or by `.end` and arbitrary ignored text -/
 def trailOk (g : List Char) : Bool :=
-  (match g with | c :: _ => isSepChar c | [] => true) && gapAux true false g
+  (match g with | c :: _ => isSepChar c | [] => true) && trailAux false g
 
 /-! ### abstract tokens -/
 
